@@ -188,6 +188,9 @@ fn precedes(printed: &print::Printed, e: &Expect) -> Vec<&'static str> {
 pub fn run(ctx: &Ctx) {
     ctx.set_rule("(a) the C17 fault catalogue restricted to the errors with a documented position rule (undefined name -> the name, operator type / overflow error -> the operator, call errors -> first token of the call, every stack-trace line -> the call), plus slots that put multi-byte text and operator chains on the same line, each under a canonical and a random layout with multi-line / multi-byte statements before it; lexical and parse errors at known tokens; (c) for random programs in random layouts: every token start reported by the real lexer and every position in the real syntax tree equals the printer's record; positions up to line 1000 / column 1000; faults inside the 2nd / 3rd interpolation slot (position composed from the reported `L:C: l:c:` chain); multi-line help texts, interpolated and 200-item one-line preambles. Non-trivial = the responsible token is preceded by a tab, CR, comment, multi-byte character, multi-line literal or continuation break; distinct = distinct source texts");
     ctx.replay_corpus(Some(&custom));
+    let hist = crate::props::faults::history_cases("C18", &["runtime"]);
+    ctx.label_n("literal evaluated after similar literals: independent of the history", hist.len() as u64);
+    ctx.judge_all(hist, Via::Cli, None);
     // (a) + (b)
     let mut built = c17::catalogue(ctx.tier == Tier::Thorough);
     for (fname, f) in faults::fault_exprs() {
